@@ -69,3 +69,6 @@ func Request(method, target string, form url.Values, basicUser, basicPass string
 	stub()
 	return nil
 }
+
+// Debugf records a diagnostic line in native runs; ignored symbolically.
+func Debugf(format string, args ...any) { stub() }
